@@ -113,11 +113,8 @@ func (s *Scope) Invoke(function interface{}, opts ...InvokeOption) (err error) {
 		}
 	}
 
-	if !s.isVerifiedAcyclic {
-		if ok, cycle := graph.IsAcyclic(s.gh); !ok {
-			return newErrInvalidInput("cycle detected in dependency graph", s.cycleDetectedError(cycle))
-		}
-		s.isVerifiedAcyclic = true
+	if err := s.verifyAcyclic(); err != nil {
+		return err
 	}
 
 	args, err := pl.BuildList(s)
@@ -168,6 +165,19 @@ func (s *Scope) Invoke(function interface{}, opts ...InvokeOption) (err error) {
 		}
 	}
 
+	return nil
+}
+
+// verifyAcyclic checks this Scope's view of the dependency graph for cycles,
+// unless that was already done since the graph last changed.
+func (s *Scope) verifyAcyclic() error {
+	if s.isVerifiedAcyclic {
+		return nil
+	}
+	if ok, cycle := graph.IsAcyclic(s.gh); !ok {
+		return newErrInvalidInput("cycle detected in dependency graph", s.cycleDetectedError(cycle))
+	}
+	s.isVerifiedAcyclic = true
 	return nil
 }
 
